@@ -12,15 +12,15 @@ BASE = dict(
     prio=0.5, pin=0.1, contstart=0.0, milestone=0.05,
     rleave=0.15, vac=0.15, gleave=0.1, hours=0.0, shift=0.0, tz=0.0, xmid=0.0,
     rdaily=0.0, rweekly=0.0, gdaily=0.0, tdaily=0.0, tweekly=0.0, tlimres=0.0,
-    alap=0.0, taskalap=0.0, dupid=0.0, galloc=0.0, starts=[MON], dur=[("w", 4), ("w", 6), ("d", 20)], midstart=0.0,
+    alap=0.0, taskalap=0.0, dupid=0.0, galloc=0.0, rbook=0.0, starts=[MON], dur=[("w", 4), ("w", 6), ("d", 20)], midstart=0.0,
 )
 
 FAMILIES = {
-    "core": dict(nest=0.4, group=0.4, team=0.2, rdaily=0.3, rweekly=0.15, gdaily=0.2, tdaily=0.15, contdep=0.3, G=[3600, 3600, 1800]),
+    "core": dict(rbook=0.2, nest=0.4, group=0.4, team=0.2, rdaily=0.3, rweekly=0.15, gdaily=0.2, tdaily=0.15, contdep=0.3, G=[3600, 3600, 1800]),
     "subslot": dict(G=[3600, 3600, 1800, 900, 300], efforts=[7, 10, 20, 25, 45, 50, 90, 100, 135, 200, 61, 119],
                     effs=["1.0", "1.0", "0.5", "0.7", "1.5", "2.0", "0.9", "1.3"], team=0.25, alt=0.15, nres=(1, 2), ntasks=(2, 8),
                     gap=[0, 0, 0, 10, 30, 45, 90], dep=0.6, rleave=0.05, vac=0.05, gleave=0.15, prio=0.6, rdaily=0.1),
-    "hours": dict(hours=0.6, shift=0.3, tz=0.5, xmid=0.4, rleave=0.3, vac=0.2, gleave=0.3, efforts=[120, 480, 960, 1440],
+    "hours": dict(rbook=0.3, hours=0.6, shift=0.3, tz=0.5, xmid=0.4, rleave=0.3, vac=0.2, gleave=0.3, efforts=[120, 480, 960, 1440],
                   starts=[MON, 1741305600, 1761523200, 1743292800 - 86400 * 6], G=[3600, 3600, 1800, 900], dur=[("w", 4)], ntasks=(1, 4)),
     "limits": dict(rdaily=0.6, rweekly=0.5, gdaily=0.4, tdaily=0.4, tweekly=0.3, tlimres=0.3, group=0.6, nest=0.5, team=0.2,
                    efforts=[240, 480, 960, 1920, 2400], dur=[("w", 1), ("d", 13), ("w", 3)], ntasks=(1, 5),
@@ -30,7 +30,7 @@ FAMILIES = {
                       efforts=[90, 150, 210, 45, 75, 330, 660, 840, 100], ntasks=(2, 5), dur=[("w", 2), ("w", 3)], G=[3600, 3600, 1800],
                       prio=0.5, team=0.15, rleave=0.0, vac=0.0, gleave=0.0),
     # horizons that cross a year end, with vacations / holidays / leaves that straddle 31 December
-    "yearend": dict(starts=[1766361600, 1797811200, 1734912000], vac=0.3, straddle=0.7, gleave=0.4, rleave=0.4, efforts=[480, 960, 1920, 2400, 3000, 3600, 4800],
+    "yearend": dict(rbook=0.3, starts=[1766361600, 1797811200, 1734912000], vac=0.3, straddle=0.7, gleave=0.4, rleave=0.4, efforts=[480, 960, 1920, 2400, 3000, 3600, 4800],
                     dur=[("w", 4), ("w", 5)], ntasks=(1, 4), nres=(1, 2), dep=0.4, rdaily=0.2, rweekly=0.2),
     # task trees in which several containers complete in the same pass (containers of dated milestones)
     "mstrees": dict(milestone=0.6, pin=0.7, nest=0.9, depth=3, ntasks=(4, 10), dep=0.2, contdep=0.1, dupid=0.2),
@@ -133,6 +133,11 @@ def gen(rng, cfg):
             a = day0 + rng.randint(0, 8) * 86400
             kind = rng.choice(["annual", "sick", "vacation", "special"])
             r["leaves"].append((a, None if rng.random() < 0.5 else a + rng.randint(1, 2) * 86400, kind))
+        if rng.random() < cfg["rbook"]:
+            # a blocking booking of the resource: calendar time from a date, in every unit the grammar knows
+            a = day0 + rng.randint(0, 9) * 86400 + rng.choice([0, 9, 11, 13]) * 3600
+            mins, txt = rng.choice([(120, "2h"), (360, "6h"), (90, "90min"), (1440, "1d"), (2880, "2d"), (10080, "1w"), (20160, "2w")])
+            r["bookings"] = [(a, mins, txt)]
         if rng.random() < cfg["rdaily"]:
             r["dailymax"] = rng.choice([60, 120, 240, 360]) if G <= 3600 else 120
         if rng.random() < cfg["rweekly"]:
